@@ -471,7 +471,24 @@ def tasks(tier, seed):
     for n in range(2, (4 if tier == "quick" else 5)):
         for j in range(1, n):
             out.append(Task(MOD, "reuse", dict(n=n, j=j), model="Z", weight=4 ** n, witness_every=1 if n < 4 else 7))
+    def both_unfinished(tree, pool_leaf):
+        """does some >> join two unfinished chains (neither side holds the pool)?"""
+        def leaves(t):
+            return [t] if isinstance(t, int) else leaves(t[0]) + leaves(t[1])
+        if isinstance(tree, int):
+            return False
+        l, r = tree
+        here = not isinstance(l, int) and not isinstance(r, int) and pool_leaf not in leaves(tree)
+        return here or both_unfinished(l, pool_leaf) or both_unfinished(r, pool_leaf)
+
     nmax = 3 if tier == "quick" else 4
+    if tier == "quick":
+        # the smallest chains in which one >> joins two unfinished chains need four elements
+        for ti, tree in enumerate(_trees(0, 5)):
+            if both_unfinished(tree, 4):
+                for k, tail in enumerate(("instance", "template", "curried")):
+                    out.append(Task(MOD, "chain", dict(n=4, tree_idx=ti, tail=tail, offset=(ti + k) % 6), model="Z",
+                                    weight=300, witness_every=11, name="chain_joined_unfinished"))
     for n in range(1, nmax + 1):
         ntrees = len(_trees(0, n + 1))
         for ti in range(ntrees):
